@@ -2,7 +2,7 @@
 # development helper: all thorough commands in sequence, one log per check under $1 (default /tmp/thorough)
 L=${1:-/tmp/thorough}; shift
 mkdir -p $L
-cd /verif
+cd "$(dirname "$0")"
 for c in ${@:-C06 C03 C09 C10 C11 C13 C14 C16 C18 C05 C12 C04 C17 C08 C07 C01 C02 C15}; do
   echo "=== $c $(date +%T)" >> $L/seq.log
   ./check $c --tier thorough > $L/$c.log 2>&1
